@@ -982,10 +982,27 @@ class Executor:
             yield st, Closure(n, st.env, frame[0], "<lambda>")
             return
         if isinstance(n, ast.JoinedStr):
-            parts = []
-            sts = [(st, parts)]
-            # f-strings only matter as opaque messages
-            yield st, "<f-string>"
+            # an f-string with concrete holes only matters as an opaque message; with a symbolic hole it is DATA (a name, a key):
+            # an uninterpreted function of the template applied to the holes (injectivity is NOT assumed)
+            holes = [v for v in n.values if isinstance(v, ast.FormattedValue)]
+            text = ""
+            for v in n.values:
+                if isinstance(v, ast.Constant):
+                    text += str(v.value).replace("{", "{{").replace("}", "}}")
+                else:
+                    spec = ""
+                    if v.format_spec is not None:
+                        spec = ":" + "".join(str(c.value) for c in v.format_spec.values if isinstance(c, ast.Constant))
+                    text += "{" + spec + "}"
+            for st2, vals in self.ev_list([h.value for h in holes], st, frame):
+                if isinstance(vals, Exc):
+                    yield st2, vals
+                    continue
+                if not any(is_sym(x) or isinstance(x, Rec) for x in vals):
+                    yield st2, "<f-string>" if holes else text
+                    continue
+                fn = self.func("fmt:" + text, *(["obj"] * len(vals)), "obj")
+                yield st2, SV(fn(*[self.as_obj(x) for x in vals]), "obj")
             return
         if isinstance(n, ast.Starred):
             raise Unsupported("starred expression outside a call")
